@@ -16,7 +16,7 @@ From RU Require Import Base.Prelude Base.Utf8 Base.Utf8Facts Model.AsciiSet Gen.
   Proofs.C01_EqClasses Proofs.C01_EqAuthSpec Proofs.C01_EqAuthModel Proofs.C01_EqAuth Proofs.C01_EqClasses2
   Proofs.C01_EqRel Proofs.C01_EqRelPath Proofs.C01_EqRelArms Proofs.C01_EqRelBase
   Proofs.C01_EqSpSpec Proofs.C01_EqSpPath Proofs.C01_EqSpModel Proofs.C01_EqSp Proofs.C01_EqSpKnown
-  Proofs.C01_EqAsm.
+  Proofs.C01_EqAbs Proofs.C01_EqAsm.
 
 (* ================= suffixes ================= *)
 Definition suffix_of (s t : list N) : Prop := exists pre, t = pre ++ s.
@@ -234,7 +234,7 @@ Qed.
 
 Theorem nobase_covers input : known_c01 None input = 0 -> in_proved_class3 None input = true.
 Proof.
-  intros Hk. cbn [in_proved_class3].
+  intros Hk. cbn [in_proved_class3]. unfold in_proved_nobase3.
   destruct (spec_scheme (spec_clean input)) as [[sch R]|] eqn:Hs.
   - destruct (is_special_scheme sch) eqn:Hsp.
     + rewrite (special_class_covers_known input sch R Hs Hsp Hk). rewrite orb_true_r. reflexivity.
@@ -311,7 +311,7 @@ Proof.
   { assert (in_class_query_only sb input = true) as ->
       by (unfold in_class_query_only; rewrite Hop, Ecl; cbn [negb andb starts_with_cp]; exact E63).
     rewrite !orb_true_r. reflexivity. }
-  apply orb_intro_r. unfold in_class_relative.
+  apply orb_true_iff. left. apply orb_intro_r. unfold in_class_relative.
   destruct (c =? 47) eqn:E47.
   - apply N.eqb_eq in E47. subst c.
     destruct (starts_with_cp 47 t) eqn:E2.
@@ -341,6 +341,32 @@ Proof.
 Qed.
 
 End BaseCover.
+
+(* ================= any base, a reference with a scheme of its own that makes the base irrelevant ================= *)
+Lemma known_base_own_scheme b input sch R :
+  spec_scheme (spec_clean input) = Some (sch, R) -> known_c01 (Some b) input = 0 -> known_c01 None input = 0.
+Proof.
+  intros Hs Hk. unfold known_c01 in *. cbv zeta in *.
+  change (cleaned input) with (ntnl (input_new_trim_c0 input)) in *. rewrite <- spec_clean_is_ntnl_trim in *.
+  destruct (spec_scheme_some_leading _ _ _ Hs) as [E1 E2]. rewrite E1, E2 in *.
+  destruct (list_eqb sch s_file); [discriminate Hk|]. cbn [orb] in *.
+  destruct (has_drive_segment R); [discriminate Hk|]. cbn [orb] in *.
+  destruct (match path b with Some p => has_drive_segment p | None => false end); [discriminate Hk|].
+  exact Hk.
+Qed.
+
+Theorem own_scheme_base_covers sb b input sch R :
+  spec_scheme (spec_clean input) = Some (sch, R) ->
+  is_special_scheme sch = false \/ list_eqb (su_scheme sb) sch = false ->
+  known_c01 (Some b) input = 0 -> in_proved_class3 (Some sb) input = true.
+Proof.
+  intros Hs Hign Hk. pose proof (known_base_own_scheme b input sch R Hs Hk) as Hk0.
+  destruct (known_nobase_scheme input sch R Hs Hk0) as (Hnf & _).
+  cbn [in_proved_class3]. apply orb_intro_r. unfold in_class_abs_base. rewrite Hs.
+  apply andb_true_iff. split; [|exact (nobase_covers input Hk0)].
+  unfold base_ignored. rewrite Hnf. cbn [negb andb].
+  destruct Hign as [H|H]; rewrite H; [reflexivity | apply orb_true_r].
+Qed.
 
 (* ================= C01_statement, slice by slice ================= *)
 From RU Require Import Model.Host Spec.WhatwgHost Spec.WhatwgHostParse Proofs.C09_Host.
@@ -372,6 +398,19 @@ Proof.
   exact (nonspecial_base_covers dbg shs b sb input Hb Hnsp Hs Hk).
 Qed.
 
+(* any good_base pair (special, file and opaque-path bases included), a reference with a scheme of its own
+   that is non-special, or special and not the scheme of the base *)
+Theorem statement_own_scheme_base b sb input sch R : usv_list input ->
+  good_base dbg shs b sb -> spec_scheme (spec_clean input) = Some (sch, R) ->
+  is_special_scheme sch = false \/ list_eqb (su_scheme sb) sch = false ->
+  known_c01 (Some b) input = 0 ->
+  host_hyp3 hp hpo hd shp shs (Some sb) input ->
+  agree_good dbg shs (parse_url dbg hp hpo hd None (Some b) input) (spec_basic_url_parse shp input (Some sb)).
+Proof.
+  intros Hu Hb Hs Hign Hk HH. apply (partial_equivalence_good3 dbg hp hpo hd shp shs input (Some b) (Some sb) Hu Hb); [|exact HH].
+  exact (own_scheme_base_covers sb b input sch R Hs Hign Hk).
+Qed.
+
 End Statements.
 
 (* the same for the parser model with the host model plugged in against the Standard's parser with the
@@ -394,5 +433,17 @@ Theorem statement_nonspecial_base_model dbg idna : IdnaOK idna -> forall b sb in
     (spec_basic_url_parse (spec_host_parser idna) input (Some sb)).
 Proof.
   intros HI b sb input Hu Hb Hnsp Hs Hk. apply statement_nonspecial_base; try assumption.
+  apply host_hyp3_model; [exact (idna_out idna HI) | exact Hu].
+Qed.
+
+Theorem statement_own_scheme_base_model dbg idna : IdnaOK idna -> forall b sb input sch R,
+  usv_list input -> good_base dbg spec_host_serializer b sb -> spec_scheme (spec_clean input) = Some (sch, R) ->
+  is_special_scheme sch = false \/ list_eqb (su_scheme sb) sch = false ->
+  known_c01 (Some b) input = 0 ->
+  agree_good dbg spec_host_serializer
+    (parse_url dbg (host_parse idna) host_parse_opaque host_display None (Some b) input)
+    (spec_basic_url_parse (spec_host_parser idna) input (Some sb)).
+Proof.
+  intros HI b sb input sch R Hu Hb Hs Hign Hk. apply (statement_own_scheme_base dbg _ _ _ _ _ b sb input sch R); try assumption.
   apply host_hyp3_model; [exact (idna_out idna HI) | exact Hu].
 Qed.
